@@ -16,6 +16,7 @@ predicates (Spec/C18.lean) are evaluated on the IMPLEMENTATION's output:
 """
 import datetime
 import json
+from dataclasses import replace as dataclass_replace
 from fractions import Fraction
 
 import numpy as np
@@ -26,7 +27,10 @@ from common import call, canon_cell, w_cells, w_date, w_rat
 from bermuda import Cell, CumulativeCell, IncrementalCell, Metadata, Triangle
 from bermuda.utils.aggregate import aggregate
 from bermuda.utils.basis import accident_quarter_to_policy_year
-from bermuda.utils.currency import convert_currency
+import importlib
+_currency_mod = importlib.import_module("bermuda.utils.currency")
+_disagg_mod = importlib.import_module("bermuda.utils.disaggregate")
+from bermuda.utils.currency import DEFAULT_EXCHANGE_RATES, convert_currency, convert_to_dollars
 from bermuda.utils.disaggregate import disaggregate_experience
 from bermuda.utils.premium_pattern import program_earned_premium
 
@@ -126,14 +130,23 @@ def rand_fields(rng, lo=1, hi=4, pool=None):
     return rng.sample(pool, rng.randrange(lo, min(hi, len(pool)) + 1))
 
 
-def make_cells(rng, rows, meta, kind, fields, vkinds, n_samples, none_p=0.0):
+def make_cells(rng, rows, meta, kind, fields, vkinds, n_samples, none_p=0.0, shared=None):
+    """`shared` (a dict, or None): when given, array values of one kind are with probability 1/2 the SAME
+    ndarray object as the last one generated (shared between fields and between cells)"""
     out = []
     for ps, pe, evals in rows:
         prev = ps - datetime.timedelta(days=1)
         for ev in evals:
             vals = {}
             for f in fields:
-                vals[f] = None if none_p and rng.random() < none_p else gen.rand_value(rng, vkinds[f], n_samples)
+                if none_p and rng.random() < none_p:
+                    vals[f] = None
+                elif shared is not None and vkinds[f] in ("iarr", "farr") and vkinds[f] in shared and rng.random() < 0.5:
+                    vals[f] = shared[vkinds[f]]
+                else:
+                    vals[f] = gen.rand_value(rng, vkinds[f], n_samples)
+                    if shared is not None and vkinds[f] in ("iarr", "farr"):
+                        shared[vkinds[f]] = vals[f]
             if kind == "I":
                 out.append(IncrementalCell(ps, pe, prev, ev, vals, meta))
                 prev = ev
@@ -167,6 +180,128 @@ def slice_metas(rng, n, currencies=None, vary_other=0.5, risk_basis=None):
     return metas
 
 
+
+# ---- sequence stream: state carried between calls ------------------------------------------------
+
+SEQ_P = 0.4          # share of cases run as a sequence (primed, accessors read, called twice)
+SHARE_P = 0.3        # share of cases whose array values share ndarray objects
+_DEFAULT_RATES0 = dict(DEFAULT_EXCHANGE_RATES)
+_CURRENCY_FIELDS0 = list(_currency_mod.CURRENCY_FIELDS)
+_INTERP_FIELDS0 = list(_disagg_mod.DEFAULT_INTERPOLATION_FIELDS)
+
+
+def tri_accessors(t):
+    """derived / cached accessors of a triangle as plain data"""
+    fns = {
+        "len": lambda: len(t),
+        "metadata": lambda: [common.w_meta(m) for m in t.metadata],
+        "periods": lambda: [[w_date(a), w_date(b)] for a, b in t.periods],
+        "evaluation_dates": lambda: [w_date(x) for x in t.evaluation_dates],
+        "fields": lambda: list(t.fields),
+        "num_samples": lambda: int(t.num_samples),
+        "field_cell_counts": lambda: sorted(t.field_cell_counts.items()),
+        "field_slice_counts": lambda: sorted(t.field_slice_counts.items()),
+        "slices": lambda: [[common.w_meta(m), len(sl)] for m, sl in t.slices.items()],
+        "is_incremental": lambda: bool(t.is_incremental),
+        "period_resolution": lambda: t.period_resolution,
+    }
+    return {k: list(call(f)) for k, f in fns.items()}
+
+
+def input_ids(tri):
+    ids = {id(tri), id(tri.cells)}
+    for c in tri.cells:
+        ids.add(id(c))
+        ids.add(id(c.values))
+        for v in c.values.values():
+            if isinstance(v, np.ndarray):
+                ids.add(id(v))
+    return ids
+
+
+def mutate_result(res, protect):
+    """in-place damage to what the call returned, sparing every object that belongs to the input
+    (the library passes input cells / arrays through; that aliasing is C03's subject, not C18's)"""
+    if isinstance(res, Triangle):
+        if id(res) in protect or id(res.cells) in protect:
+            return
+        for c in res.cells:
+            if id(c) in protect:
+                continue
+            vals = c.values
+            for v in list(vals.values()):
+                if isinstance(v, np.ndarray) and id(v) not in protect:
+                    try:
+                        v[...] = 0
+                    except Exception:  # noqa: BLE001
+                        pass
+            if id(vals) not in protect:
+                try:
+                    vals["zz_mutated"] = 7
+                except Exception:  # noqa: BLE001
+                    pass
+        try:
+            res.cells.reverse()
+        except Exception:  # noqa: BLE001
+            pass
+    elif isinstance(res, tuple):
+        for a in res:
+            if isinstance(a, np.ndarray):
+                try:
+                    a *= 0
+                except Exception:  # noqa: BLE001
+                    pass
+
+
+def seq_call(ctx, stream, case, tri, thunk, dump, seq, prime=None):
+    """the call under test. Plain case: one call. Sequence case: an optional priming call of the same
+    function on OTHER input, accessors of the input read first, the call, input and accessors compared,
+    the result damaged in place, the call again on the SAME objects: both dumps must be identical.
+    Returns (result usable by the caller, dump of the first call)."""
+    if not seq:
+        r = call(thunk)
+        return r, dump(r)
+    ctx.count(f"{stream}/sequence")
+    if prime is not None:
+        call(prime)
+    acc0 = tri_accessors(tri) if tri is not None else None
+    in0 = w_cells(tri.cells) if tri is not None else None
+    r1 = call(thunk)
+    d1 = dump(r1)
+    if tri is not None:
+        if w_cells(tri.cells) != in0:
+            ctx.fail(f"{stream}: the call changed its input triangle", case, {"input_after": w_cells(tri.cells)})
+        if tri_accessors(tri) != acc0 or acc0 != tri_accessors(Triangle(list(tri.cells))):
+            ctx.fail(f"{stream}: derived accessors of the input changed / disagree with its cells", case,
+                     {"before": acc0, "after": tri_accessors(tri)})
+    if r1[0] == "ok" and isinstance(r1[1], Triangle):
+        a_out = tri_accessors(r1[1])
+        a_new = tri_accessors(Triangle(list(r1[1].cells)))
+        if a_out != a_new:
+            ctx.fail(f"{stream}: derived accessors of the result disagree with values recomputed from its cells",
+                     case, {"result": a_out, "recomputed": a_new, "impl": d1})
+    if r1[0] == "ok":
+        mutate_result(r1[1], input_ids(tri) if tri is not None else set())
+    r2 = call(thunk)
+    d2 = dump(r2)
+    if d2 != d1:
+        ctx.fail(f"{stream}: a second call on the same input (after the first result was modified in place) "
+                 "gives a different result", case, {"first": d1, "second": d2})
+    if tri is not None and w_cells(tri.cells) != in0:
+        ctx.fail(f"{stream}: modifying the returned objects changed the input triangle "
+                 "(freshly created results only were touched)", case, {"input_after": w_cells(tri.cells)})
+    return r2, d1
+
+
+def check_module_constants(ctx):
+    if dict(DEFAULT_EXCHANGE_RATES) != _DEFAULT_RATES0 or list(_currency_mod.CURRENCY_FIELDS) != _CURRENCY_FIELDS0 \
+            or list(_disagg_mod.DEFAULT_INTERPOLATION_FIELDS) != _INTERP_FIELDS0:
+        ctx.fail("a module-level table was modified by the calls",
+                 {"DEFAULT_EXCHANGE_RATES": dict(DEFAULT_EXCHANGE_RATES), "CURRENCY_FIELDS": list(_currency_mod.CURRENCY_FIELDS),
+                  "DEFAULT_INTERPOLATION_FIELDS": list(_disagg_mod.DEFAULT_INTERPOLATION_FIELDS)},
+                 {"expected": [_DEFAULT_RATES0, _CURRENCY_FIELDS0, _INTERP_FIELDS0]})
+
+
 # ---- stream 1: currency --------------------------------------------------------------------------
 
 RATES_F = [1.25, 0.75, 1.5, 2.0, 0.875, 1.0, 0.5, 1.375, 3.0]
@@ -193,9 +328,10 @@ def gen_currency(rng):
     rows = grid_rows(rng, res, rng.randrange(1, 4), month_start(rng.randrange(1996, 2028), rng.randrange(1, 13)),
                      max_lag=3, shape=rng.choice(["triangle", "ragged"]))
     none_p = 0.03 if rng.random() < 0.1 else 0.0
+    shared = {} if rng.random() < SHARE_P else None
     cells = []
     for m in metas:
-        cells += make_cells(rng, rows, m, kind, fields, vk, 3, none_p=none_p)
+        cells += make_cells(rng, rows, m, kind, fields, vk, 3, none_p=none_p, shared=shared)
     present = sorted({m.currency for m in metas if m.currency is not None and m.currency != target})
     rates = {}
     for c in present:
@@ -213,33 +349,61 @@ def run_currency(ctx, n, reqs, post):
     rng = ctx.rng
     for i in range(n):
         cells, target, rates, mode = gen_currency(rng)
+        variant = "convert_currency"
+        if target == "USD" and rng.random() < 0.3:
+            variant = "convert_to_dollars(rates)"
+        if rng.random() < 0.06:
+            # default rate table (EUR 1.10, GBP 1.31: not dyadic, so tolerance and no exact Spec verdict)
+            variant, target, rates = "convert_to_dollars()", "USD", dict(_DEFAULT_RATES0)
+            cells = [c.replace(metadata=dataclass_replace(c.metadata, currency=rng.choice(["USD", "EUR", "GBP", "GBP"])))
+                     if c.metadata.currency not in (None, "USD", "EUR", "GBP") else c for c in cells]
         tri = Triangle(cells)
-        d = impl_dump(call(convert_currency, tri, target, rates))
         inp = w_cells(tri.cells)
         req = {"op": "currency", "cells": inp, "target": target,
-               "rates": [[k, w_num(v)] for k, v in rates.items()], "impl": d.get("ok")}
+               "rates": [[k, w_num(v)] for k, v in rates.items()]}
+        case = dict(req, variant=variant)
+        if variant == "convert_currency":
+            thunk = lambda: convert_currency(tri, target, rates)                      # noqa: E731
+        elif variant == "convert_to_dollars(rates)":
+            thunk = lambda: convert_to_dollars(tri, rates)                             # noqa: E731
+        else:
+            thunk = lambda: convert_to_dollars(tri)                                    # noqa: E731
+        seq = rng.random() < SEQ_P
+        prime = None
+        if seq:
+            c2, t2, r2, _ = gen_currency(rng)
+            if rng.random() < 0.5:      # SAME triangle object, other rate table / target
+                r3 = {k: (v * 2 if isinstance(v, int) else v * 0.5) for k, v in rates.items()}
+                prime = lambda: (convert_currency(tri, target, r3), convert_currency(tri, t2, r2))  # noqa: E731
+            else:
+                prime = lambda: (convert_currency(Triangle(c2), t2, r2), convert_to_dollars(Triangle(c2), r2))  # noqa: E731
+        _, d = seq_call(ctx, "currency", case, tri, thunk, impl_dump, seq, prime)
+        exact = variant != "convert_to_dollars()"
+        req["impl"] = d.get("ok") if exact else None
         reqs.append(req)
-        post.append(("currency", req, d, 0))
+        post.append(("currency", req, d, Fraction(0) if exact else TOL))
         ctx.count(f"currency/{mode}")
+        ctx.count(f"currency/variant={variant}")
         ctx.count(f"currency/slices={len(tri.slices)}")
         ctx.count("currency/result=" + ("ok" if "ok" in d else "err:" + d["err"]))
-        ctx.case(digest=json.dumps([inp, target, req["rates"]], sort_keys=True),
+        ctx.case(digest=json.dumps([inp, target, req["rates"], variant], sort_keys=True),
                  nontrivial="ok" in d and any(c["m"]["cu"] != target for c in inp),
                  sample={"op": "currency", "target": target, "rates": {k: float(v) for k, v in rates.items()},
                          "n_cells": len(inp), "currencies": sorted({str(c["m"]["cu"]) for c in inp})} if i < 1 else None)
+    check_module_constants(ctx)
 
 
-def check_currency(ctx, req, d, out):
+def check_currency(ctx, req, d, out, tol=Fraction(0)):
     case = {k: req[k] for k in ("op", "cells", "target", "rates")}
     model, spec = out["model"], out["spec"]
     if out["mustRefuse"] and "ok" in d:
         ctx.fail("currency: a slice without currency / without a rate was converted instead of refused", case, {"impl": d})
-    if not out["mustRefuse"] and "ok" in d and not spec["currency"]:
+    if not out["mustRefuse"] and "ok" in d and spec is not None and not spec["currency"]:
         ctx.fail("currency: output is not (currency fields x slice rate, everything else unchanged, currency=target)",
                  case, {"impl": d})
     if not out["mustRefuse"] and "err" in d and "ok" in model:
         ctx.fail("currency: a convertible triangle was refused", case, {"impl": d})
-    if not same_result(model, d, 0):
+    if not same_result(model, d, tol):
         ctx.disagree("convert_currency", case, model, d)
 
 
@@ -284,10 +448,11 @@ def gen_disagg(rng):
     pool = ["paid_loss", "reported_loss", "incurred_loss", "earned_premium", "open_claims", "written_premium"]
     fields = rand_fields(rng, 1, 4, pool)
     vk = {f: rng.choice(["int", "float", "iarr", "farr"]) for f in fields}
+    shared = {} if rng.random() < SHARE_P else None
     cells = []
     for m in metas:
         r = rows if rng.random() < 0.6 else [x for x in rows if rng.random() < 0.7] or rows[:1]
-        cells += make_cells(rng, r, m, kind, fields, vk, 3)
+        cells += make_cells(rng, r, m, kind, fields, vk, 3, shared=shared)
     # selection
     sel = None
     if rng.random() < 0.5:
@@ -321,10 +486,32 @@ def run_disagg(ctx, n, reqs, post):
     for i in range(n):
         cells, L, res, weights, sel, mode, start = gen_disagg(rng)
         tri = Triangle(cells)
-        r = call(disaggregate_experience, tri, res, None if weights is None else list(weights),
-                 None if sel is None else list(sel))
-        d = impl_dump(r)
         inp = w_cells(tri.cells)
+        w_arg = None if weights is None else list(weights)
+        f_arg = None if sel is None else list(sel)
+        if weights is None and sel is None:
+            thunk = lambda: disaggregate_experience(tri, res)                          # defaults  # noqa: E731
+        elif sel is None:
+            thunk = lambda: disaggregate_experience(tri, res, w_arg)                   # noqa: E731
+        else:
+            thunk = lambda: disaggregate_experience(tri, res, w_arg, f_arg)            # noqa: E731
+        seq = rng.random() < SEQ_P
+        prime = None
+        if seq:
+            c2, _, res2, w2, sel2, _, _ = gen_disagg(rng)
+            if rng.random() < 0.5:      # SAME triangle object, other weights / fields / resolution
+                n3 = L // res if res and L % res == 0 else 1
+                w3 = dyadic_weights(rng, max(n3, 1))
+                prime = lambda: (disaggregate_experience(tri, res, w3, ["paid_loss", "open_claims"]),   # noqa: E731
+                                 disaggregate_experience(tri, 1))
+            else:
+                prime = lambda: disaggregate_experience(Triangle(c2), res2, None if w2 is None else list(w2), sel2)  # noqa: E731
+        case = {"op": "disagg", "cells": inp, "res": res, "weights": None if weights is None else [w_num(w) for w in weights],
+                "fields": sel}
+        r, d = seq_call(ctx, "disagg", case, tri, thunk, impl_dump, seq, prime)
+        if w_arg is not None and w_arg != list(weights) or f_arg is not None and f_arg != list(sel):
+            ctx.fail("disaggregate_experience modified its weights / fields argument", case,
+                     {"weights_after": w_arg, "fields_after": f_arg})
         applicable = "ok" in d and res < L and L % res == 0 and mode != "offgrid"
         all_obs = all(gen.add_months_int(c.period_start, L - 1, end=True) <= c.evaluation_date for c in tri.cells)
         nsub = L // res if res and L % res == 0 else 1
@@ -387,6 +574,7 @@ def gen_policy(rng):
     kind = rng.choice(["C", "U", "U", "I"])
     fields = rand_fields(rng, 1, 3, ["earned_premium", "paid_loss", "reported_loss", "open_claims"])
     vk = {f: rng.choice(["int", "float", "farr"]) for f in fields}
+    shared = {} if rng.random() < SHARE_P else None
     cells = []
     for m in metas:
         rows = []
@@ -400,7 +588,7 @@ def gen_policy(rng):
             rows.append((ps, pe, [gen.add_months_int(pe, 3 * k, end=True) for k in keep]))
         if mode == "ragged" and n_periods == 1:
             mode = "ok"
-        cells += make_cells(rng, rows, m, kind, fields, vk, 3)
+        cells += make_cells(rng, rows, m, kind, fields, vk, 3, shared=shared)
     om = rng.randrange(1, 13)
     od = rng.choice([1, 1, 1, 1, 15, 28, 10])
     origin = D(2020, om, od)
@@ -408,6 +596,8 @@ def gen_policy(rng):
         origin = rng.choice([D(2020, 2, 29), D(2020, 2, 29), D(2020, 1, 31), D(2020, 5, 31)])
     plen = rng.choice([1, 3, 6, 12, 12, 12, 18, 24])
     cont = rng.random() < 0.7
+    if mode == "ok" and rng.random() < 0.15:      # the function's own defaults (passed implicitly)
+        plen, origin, cont = 12, D(2020, 1, 1), True
     return cells, plen, origin, cont, mode
 
 
@@ -416,9 +606,27 @@ def run_policy(ctx, n, reqs, post):
     for i in range(n):
         cells, plen, origin, cont, mode = gen_policy(rng)
         tri = Triangle(cells)
-        d = impl_dump(call(accident_quarter_to_policy_year, tri, policy_length_months=plen,
-                           policy_year_origin=origin, continuous_issuance=cont))
         inp = w_cells(tri.cells)
+        if (plen, origin, cont) == (12, D(2020, 1, 1), True):
+            thunk = lambda: accident_quarter_to_policy_year(tri)                      # defaults  # noqa: E731
+            ctx.count("policyYear/default-arguments")
+        else:
+            thunk = lambda: accident_quarter_to_policy_year(tri, policy_length_months=plen,   # noqa: E731
+                                                            policy_year_origin=origin, continuous_issuance=cont)
+        seq = rng.random() < SEQ_P
+        prime = None
+        if seq:
+            c2, p2, o2, k2, _ = gen_policy(rng)
+            if rng.random() < 0.5:      # SAME triangle object, the other issuance mode / another policy length
+                prime = lambda: (accident_quarter_to_policy_year(tri, policy_length_months=plen,   # noqa: E731
+                                                                 policy_year_origin=origin, continuous_issuance=not cont),
+                                 accident_quarter_to_policy_year(tri, policy_length_months=p2,
+                                                                 policy_year_origin=origin, continuous_issuance=cont))
+            else:
+                prime = lambda: accident_quarter_to_policy_year(Triangle(c2), policy_length_months=p2,   # noqa: E731
+                                                                policy_year_origin=o2, continuous_issuance=k2)
+        case = {"op": "policyYear", "cells": inp, "policyLen": plen, "origin": w_date(origin), "continuous": cont}
+        _, d = seq_call(ctx, "policyYear", case, tri, thunk, impl_dump, seq, prime)
         req = {"op": "policyYear", "cells": inp, "policyLen": plen, "origin": w_date(origin),
                "continuous": cont, "tol": TOL_W, "impl": d.get("ok")}
         reqs.append(req)
@@ -484,12 +692,36 @@ def run_premium(ctx, n, reqs, post):
     rng = ctx.rng
     for i in range(n):
         vol, wp, wres, ep, eres, ores, offset, cont, exact = gen_premium(rng)
-        st, v = call(program_earned_premium, vol, np.array(wp, dtype=float), wres, np.array(ep, dtype=float), eres,
-                     ores, offset, cont)
-        if st == "ok":
-            d = {"ok": [[w_rat(float(x)) for x in v[0]], [w_rat(float(x)) for x in v[1]]]}
+        wp_a, ep_a = np.array(wp, dtype=float), np.array(ep, dtype=float)
+        if offset == 0 and cont:
+            thunk = lambda: program_earned_premium(vol, wp_a, wres, ep_a, eres, ores)                 # defaults  # noqa: E731
+        elif cont:
+            thunk = lambda: program_earned_premium(vol, wp_a, wres, ep_a, eres, ores, output_offset=offset)  # noqa: E731
         else:
-            d = {"err": v}
+            thunk = lambda: program_earned_premium(vol, wp_a, wres, ep_a, eres, ores, offset, cont)   # noqa: E731
+
+        def pdump(res):
+            st, v = res
+            if st == "ok":
+                return {"ok": [[w_rat(float(x)) for x in v[0]], [w_rat(float(x)) for x in v[1]]]}
+            return {"err": v}
+
+        seq = rng.random() < SEQ_P
+        prime = None
+        if seq:
+            g2 = gen_premium(rng)
+            if rng.random() < 0.5:      # same patterns, other offset / writing mode / output resolution
+                prime = lambda: (program_earned_premium(vol, wp_a.copy(), wres, ep_a.copy(), eres, ores, offset + 1, not cont),  # noqa: E731
+                                 program_earned_premium(vol, wp_a.copy(), wres, ep_a.copy(), eres, ores + 1, offset, cont))
+            else:
+                prime = lambda: program_earned_premium(g2[0], np.array(g2[1], dtype=float), g2[2],       # noqa: E731
+                                                       np.array(g2[3], dtype=float), g2[4], g2[5], g2[6], g2[7])
+        case = {"op": "premium", "vol": w_rat(vol), "wp": [w_rat(x) for x in wp], "wres": wres,
+                "ep": [w_rat(x) for x in ep], "eres": eres, "ores": ores, "offset": offset, "continuous": cont}
+        _, d = seq_call(ctx, "premium", case, None, thunk, pdump, seq, prime)
+        if wp_a.tolist() != [float(x) for x in wp] or ep_a.tolist() != [float(x) for x in ep]:
+            ctx.fail("program_earned_premium modified its pattern arguments", case,
+                     {"writing_after": wp_a.tolist(), "earning_after": ep_a.tolist()})
         req = {"op": "premium", "vol": w_rat(vol), "wp": [w_rat(x) for x in wp], "wres": wres,
                "ep": [w_rat(x) for x in ep], "eres": eres, "ores": ores, "offset": offset, "continuous": cont,
                "tol": "0" if exact else TOL_W, "impl": d.get("ok")}
@@ -537,7 +769,7 @@ def correspondence(ctx):
     outs = common.Driver("drv_c18").run(reqs)
     for (stream, req, d, tol), out in zip(post, outs):
         if stream == "currency":
-            check_currency(ctx, req, d, out)
+            check_currency(ctx, req, d, out, tol)
         elif stream == "disagg":
             check_disagg(ctx, req, d, out, tol)
         elif stream == "policyYear":
